@@ -25,7 +25,17 @@ LEVEL_TEXT = ('Transaction.signature_segwit is verified against the BIP143 preim
 LEVEL_NOTE = ('SHA-256 uninterpreted; spec/sighash.py is the statement of consensus (BIP143 text, developer reference). The script code per input kind is '
               'verified separately on Input.update_scripts (P2PKH / P2WPKH / P2SH-P2WPKH with one key; P2SH, P2WSH, P2SH-P2WSH multisig with 2 and 3 keys): '
               'the preimage contracts take the stored script as given, the update_scripts contracts show it is the script consensus expects. Object state left by earlier calls is covered only by native stateful contract evaluation (earlier call + in-place edit).')
+LEVEL_NOTE += (' Which kind an input is taken to be (Transaction.add_input / Input.__init__, from address, locking script, explicit or inherited witness type) is object '
+               'construction outside the verifier: covered by a BOUNDED native stand-in (bounded/c01_signing.py, never counted as proved) that builds and signs '
+               'transactions through the API and judges the serialised result without the library (independent reader, digests of spec/sighash.py, pure-Python ECDSA) '
+               'against the script of the output each input spends.')
 NOT_COVERED = ['P2PK and bare multisig script codes; multisig with more than 3 keys in update_scripts', 'transactions with a 00 script AND more than 3 inputs / outputs (the any-count proofs exclude 00 scripts; the per-count cases stop at 3)',
                'legacy hash types other than SIGHASH_ALL (the property names SIGHASH_ALL only)']
 TRUSTED = ['spec/sighash.py', 'sha256 as uninterpreted function', 'varstr effective contract (C18, F-varstr-00 pinned)']
 FUZZ_QUICK = 120
+
+
+
+def extra_checks(tier, seed, opens):
+    from bounded import c01_signing
+    return [c01_signing.run(tier, seed, opens)]
